@@ -2,9 +2,9 @@
 # builds the element-tree model runner `_build/avm_tree` from the extracted Coq model + tree_driver.ml
 set -e
 cd "$(dirname "$0")"
-python3 ../tools/coqmake.py Tree/Script.vo Tree/CheckFn.vo >/dev/null || { echo "coq build of Tree/ failed"; python3 ../tools/coqmake.py Tree/Script.vo Tree/CheckFn.vo | tail -20; exit 1; }
+python3 ../tools/coqmake.py Tree/Script2.vo Tree/CheckFn.vo >/dev/null || { echo "coq build of Tree/ failed"; python3 ../tools/coqmake.py Tree/Script2.vo Tree/CheckFn.vo | tail -20; exit 1; }
 mkdir -p gen _build/tree
-stamp=$(cat ../coq/Tree/Heap.v ../coq/Tree/Ops.v ../coq/Tree/Script.v ../coq/Tree/CheckFn.v ../coq/Gen/XmlVexprs.v \
+stamp=$(cat ../coq/Tree/*.v ../coq/Xml/Parser.v ../coq/Xml/Lexer.v ../coq/Xml/Serializer.v ../coq/Gen/XmlVexprs.v \
         ../coq/Spec/SpecOps.v ../coq/Hash/HashModel.v ../coq/Base/*.v ../coq/Regex/Vexpr.v ../coq/Regex/Bisim.v \
         extract_tree.v tree_driver.ml | md5sum | cut -d' ' -f1)
 if [ -f _build/tree/stamp ] && [ "$(cat _build/tree/stamp)" = "$stamp" ] && [ -x _build/avm_tree ]; then exit 0; fi
